@@ -401,6 +401,13 @@ Proof.
   apply andb_true_iff in H. destruct H as [H1 H2]. apply Z.eqb_eq in H1. subst. f_equal. apply IH. exact H2.
 Qed.
 
+(* the tempo list of the denotation is the mapset's tempo list: same length, and every tempo row (offset, bpm) of the first
+   chart is a tempo change of the text at the row's beat, with its bpm, at its millisecond offset *)
+Definition tempo_denotes (d : dfile) (rows : list (Q * Q * Q)) (init : Q) (l : list bcs) : Prop :=
+  length (d_tempo d) = length rows
+  /\ forall r, In r rows -> exists tp : Q * Q * Q, In tp (d_tempo d)
+       /\ fst (fst tp) == spec_beat init l (fst (fst r)) /\ snd (fst tp) == snd (fst r) /\ snd tp == fst (fst r).
+
 Section FileThm.
   Variable cf : smconf.
   Let tbl := k_tbl cf.
@@ -762,7 +769,8 @@ Section FileThm.
         text_shape s txt /\
         exists d, sm_denote txt = Some d /\ header_roundtrip 0 s d = true
           /\ exists init l, match s_maps s with c0 :: _ => tempo_script_of cf (c_bpms c0) = Some (init, l) | [] => False end
-              /\ Forall2 (fun dc c => header_match 0 dc c = true /\ Pc init l c (d_notes dc)) (d_charts d) (s_maps s).
+              /\ Forall2 (fun dc c => header_match 0 dc c = true /\ Pc init l c (d_notes dc)) (d_charts d) (s_maps s)
+              /\ match s_maps s with c0 :: _ => tempo_denotes d (c_bpms c0) init l | [] => False end.
   Proof.
     intro Hdom.
     destruct (set_dom_parts s Hdom) as [c0 [cs [init [l [off [Em [Et [Htx [Hlen [Htd [Eo [Eoff Hch]]]]]]]]]]]].
@@ -855,7 +863,19 @@ Section FileThm.
       split; [exact Hbp|]. split; [exact P1|].
       refine (forall2_impl _ _ _ _ _ (forall2_with_in _ _ _ G)). intros c cd [Hc [rn [rd [E [R1 R2]]]]].
       exists (bodyof c), rn, rd. split; [apply Hbody; exact Hc|]. split; [exact E|]. split; assumption. }
-    eexists. split; [exact SD|]. split; [|exists init, l; split; [rewrite Em; exact Et|exact CD2]].
+    eexists. split; [exact SD|]. split; [|exists init, l; split; [rewrite Em; exact Et|split; [exact CD2|]]].
+    2:{ rewrite Em. unfold tempo_denotes. cbn [d_tempo]. split.
+        - rewrite map_length, <- (Permutation_length (sort_by_perm pair_lt pairs)). assert (FL: forall (A B : Type) (R : A -> B -> Prop) la lb, Forall2 R la lb -> length la = length lb) by (intros A B R la lb F; induction F; cbn; congruence). exact (FL _ _ _ _ _ HP).
+        - intros r Hr. destruct (forall2_in_r _ _ _ _ HP Hr) as [p [Hp [M [C E]]]].
+          exists (fst p, snd p, beat_time (Qred (- (x_off * 1000))) (tempo_script pairs) (fst p)). split.
+          + apply in_map_iff. exists p. split; [reflexivity|]. apply (Permutation_in _ (sort_by_perm pair_lt pairs)). exact Hp.
+          + cbn [fst snd].
+            assert (Eb: fst p == spec_beat init l (fst (fst r))).
+            { apply millionth_eq; [exact M|apply (row_beat_millionth cf Hok rows init l Et Htd r Hr)|exact C]. }
+            split; [exact Eb|]. split; [exact E|].
+            assert (Hro: In (fst (fst r)) ros) by (unfold ros; apply (in_map (fun b : Q * Q * Q => fst (fst b))); exact Hr).
+            destruct (forall2_in_l _ _ _ _ B2 Hro) as [b [_ [Eb2 Hf]]]. subst b.
+            apply (beat_time_exact cf rows init l Et Htd script beat0 _ _ _ Hsc Hb0 Hf Eb). }
     (* header round trip *)
     unfold header_roundtrip. cbn [d_items d_beat0].
     assert (R1: forallb2 (fun tag v => match lookup_last tag (hfields hl) None with Some x => text_eqb x v | None => false end) text_field_tags (s_txt s) = true).
@@ -884,7 +904,7 @@ Proof. intro F. unfold canon. apply sort_by_rel; [exact F|]. intros x y x' y' _ 
 Lemma notes_close_eqv a b : Forall2 note_eqv a b -> notes_close (fun _ => 0) a b = true.
 Proof.
   induction 1 as [|x y a b [E1 [E2 E3]] _ IH]; [reflexivity|]. destruct x as [[cx tx_] lx], y as [[cy ty] ly]. cbn [fst snd] in *. cbn [notes_close].
-  rewrite IH, andb_true_r. subst cy. rewrite Z.eqb_refl, (q_close0 _ _ E2). cbn [andb]. change (2 * 0) with 0. apply (q_close0 _ _ E3).
+  rewrite IH, andb_true_r. subst cy. rewrite Z.eqb_refl, (q_close0 _ _ E2). cbn [andb]. change (0 + 0) with 0. apply (q_close0 _ _ E3).
 Qed.
 Lemma keys_differ_forall2 a b : Forall2 note_eqv a b -> ForallOrdPairs keys_differ b -> ForallOrdPairs keys_differ a.
 Proof.
@@ -969,7 +989,7 @@ Section Regimes.
       exists body. split; [exact B1|]. split; [exact B2|]. split; [exact B3|]. exists op, notes, ns. split; [exact D|]. split; [exact Ho|].
       split; [exact Hp|]. intro k.
       apply (chart_keys_distinct cf Hcf init l c Hdist).
-    - exists toks. split; [exact W|]. intros txt Hm. destruct (H txt Hm) as [_ [d [D1 [D2 [init [l [_ D3]]]]]]].
+    - exists toks. split; [exact W|]. intros txt Hm. destruct (H txt Hm) as [_ [d [D1 [D2 [init [l [_ [D3 _]]]]]]]].
       exists d. split; [exact D1|]. split; [exact D2|exact D3].
   Qed.
   Theorem sm_write_denotes_gen s : c03_domb_gen cf s = true ->
@@ -1027,7 +1047,52 @@ Section Regimes.
       destruct (chart_dom_parts cf c0 c init l Hcom) as [keys' [K1 [K2 [_ [_ [_ [_ [Eb [P1 [P2 [P3 P4]]]]]]]]]]].
       assert (keys' = keys) by congruence. subst keys'.
       exact (chart_thm_cap cf Hcf Hok rows init l Hs Ht script beat0 Hsc Hb0 c keys (eq_trans Eb Hr) K1 K2 P1 P2 P3 P4 Hcells).
-    - exists toks. split; [exact W|]. intros txt Hm. apply (H txt Hm).
+    - exists toks. split; [exact W|]. intros txt Hm. destruct (H txt Hm) as [_ [d [D1 [D2 [init [l [D3 [D4 _]]]]]]]].
+      exists d. split; [exact D1|]. split; [exact D2|]. exists init, l. split; [exact D3|exact D4].
+  Qed.
+
+  (* tempo, exact domain *)
+  Theorem sm_write_tempo_exact_gen s : c03_domb_gen cf s = true ->
+    exists toks, sm_write cf current s = Some toks /\
+      forall txt, match_toks 0 toks txt = true ->
+        exists d, sm_denote txt = Some d
+          /\ exists init l, match s_maps s with c0 :: _ => tempo_script_of cf (c_bpms c0) = Some (init, l) /\ tempo_denotes d (c_bpms c0) init l
+                                               | [] => False end.
+  Proof.
+    intro Hdom.
+    destruct (sm_write_denotes_with cf Hok (chart_domb cf) (fun _ _ c notes => exactP c notes)
+                (fun c0 c init l H => proj1 (chart_domb_parts c0 c init l H))) with (s := s) as [toks [W H]]; [|exact Hdom|].
+    - intros rows init l Hs Ht script beat0 Hsc Hb0 c0 c keys Hr Hcd Hk.
+      destruct (chart_domb_parts c0 c init l Hcd) as [Hcom [Hdist Hex]].
+      destruct (chart_dom_parts cf c0 c init l Hcom) as [keys' [K1 [K2 [_ [_ [_ [_ [Eb [P1 [P2 [P3 P4]]]]]]]]]]].
+      assert (keys' = keys) by congruence. subst keys'.
+      destruct (chart_thm cf Hcf Hok rows init l Hs Ht script beat0 Hsc Hb0 c keys (eq_trans Eb Hr) K1 K2 P1 P2 P3 P4 Hdist Hex)
+        as [body [B1 [B2 [B3 [op [notes [ns [D [Ho Hp]]]]]]]]].
+      exists body. split; [exact B1|]. split; [exact B2|]. split; [exact B3|]. exists op, notes, ns. split; [exact D|]. split; [exact Ho|].
+      split; [exact Hp|]. intro k. apply (chart_keys_distinct cf Hcf init l c Hdist).
+    - exists toks. split; [exact W|]. intros txt Hm. destruct (H txt Hm) as [_ [d [D1 [_ [init [l [D3 [_ D5]]]]]]]].
+      exists d. split; [exact D1|]. exists init, l. destruct (s_maps s); [exact D3|split; assumption].
+  Qed.
+
+  (* tempo: the tempo list the text denotes is the mapset's (exact and cap regime alike) *)
+  Theorem sm_write_tempo_gen s : c03_cap_domb_gen cf s = true ->
+    exists toks, sm_write cf current s = Some toks /\
+      forall txt, match_toks 0 toks txt = true ->
+        exists d, sm_denote txt = Some d
+          /\ exists init l, match s_maps s with c0 :: _ => tempo_script_of cf (c_bpms c0) = Some (init, l) /\ tempo_denotes d (c_bpms c0) init l
+                                               | [] => False end.
+  Proof.
+    intro Hdom.
+    destruct (sm_write_denotes_with cf Hok (chart_cap_domb cf)
+                (fun init l c notes => forall k, exists a', Permutation (dnotes_of k notes) a' /\ Forall2 (cap_note_rel init l) a' (chart_list c k))
+                (fun c0 c init l H => proj1 (chart_cap_domb_parts c0 c init l H))) with (s := s) as [toks [W H]]; [|exact Hdom|].
+    - intros rows init l Hs Ht script beat0 Hsc Hb0 c0 c keys Hr Hcd Hk.
+      destruct (chart_cap_domb_parts c0 c init l Hcd) as [Hcom Hcells].
+      destruct (chart_dom_parts cf c0 c init l Hcom) as [keys' [K1 [K2 [_ [_ [_ [_ [Eb [P1 [P2 [P3 P4]]]]]]]]]]].
+      assert (keys' = keys) by congruence. subst keys'.
+      exact (chart_thm_cap cf Hcf Hok rows init l Hs Ht script beat0 Hsc Hb0 c keys (eq_trans Eb Hr) K1 K2 P1 P2 P3 P4 Hcells).
+    - exists toks. split; [exact W|]. intros txt Hm. destruct (H txt Hm) as [_ [d [D1 [_ [init [l [D3 [_ D5]]]]]]]].
+      exists d. split; [exact D1|]. exists init, l. destruct (s_maps s); [exact D3|split; assumption].
   Qed.
 End Regimes.
 
@@ -1070,3 +1135,19 @@ Proof. exact (sm_write_spec_gen live_conf live_conf_ref live_table_ok s). Qed.
 Theorem sm_write_text_shape (s : smset) : c03_domb s = true ->
   exists toks, sm_write live_conf current s = Some toks /\ forall txt, match_toks 0 toks txt = true -> text_shape live_conf s txt.
 Proof. exact (sm_write_shape_gen live_conf live_conf_ref live_table_ok s). Qed.
+
+(* the tempo list of the written text is the mapset's tempo list (both domains) *)
+Theorem sm_write_tempo (s : smset) : c03_domb s = true ->
+  exists toks, sm_write live_conf current s = Some toks /\
+    forall txt, match_toks 0 toks txt = true ->
+      exists d, sm_denote txt = Some d
+        /\ exists init l, match s_maps s with c0 :: _ => tempo_script_of live_conf (c_bpms c0) = Some (init, l) /\ tempo_denotes d (c_bpms c0) init l
+                                             | [] => False end.
+Proof. exact (sm_write_tempo_exact_gen live_conf live_conf_ref live_table_ok s). Qed.
+Theorem sm_write_tempo_cap (s : smset) : c03_cap_domb s = true ->
+  exists toks, sm_write live_conf current s = Some toks /\
+    forall txt, match_toks 0 toks txt = true ->
+      exists d, sm_denote txt = Some d
+        /\ exists init l, match s_maps s with c0 :: _ => tempo_script_of live_conf (c_bpms c0) = Some (init, l) /\ tempo_denotes d (c_bpms c0) init l
+                                             | [] => False end.
+Proof. exact (sm_write_tempo_gen live_conf live_conf_ref live_table_ok s). Qed.
